@@ -225,7 +225,12 @@ impl Version {
         match self {
             Version::V1 => writer.write_all(
                 &u16::try_from(header_len)
-                    .expect("cannot convert npy header_len to u16")
+                    .map_err(|_| {
+                        io::Error::new(
+                            io::ErrorKind::InvalidInput,
+                            "shape has too many dimensions for an npy version 1.0 header",
+                        )
+                    })?
                     .to_le_bytes(),
             ),
             Version::V2 | Version::V3 => writer.write_all(
